@@ -160,8 +160,11 @@ def gen_view(rng, m, cells):
     box = m["scale"]
     smin = min(c["dx"] for c in cells)
     smax = max(c["dx"] for c in cells)
-    ok = rng.choice(["inside", "inside", "cell-centre", "near", "zero"])
-    if ok == "inside":
+    ok = rng.choice(["inside", "inside", "cell-centre", "near", "zero", "corner"])
+    if ok == "corner":
+        # just inside or outside a corner/edge of the domain: the plane clips only a few cells, all on one side
+        origin = [box * rng.choice([0.0, 1.0]) + box * rng.uniform(-0.15, 0.05) * rng.choice([1, -1]) for _ in range(ndim)]
+    elif ok == "inside":
         origin = [box * rng.uniform(0.05, 0.95) for _ in range(ndim)]
     elif ok == "cell-centre":
         c = rng.choice(cells)
@@ -170,7 +173,7 @@ def gen_view(rng, m, cells):
         origin = [box * rng.uniform(-0.2, 1.2) for _ in range(ndim)]
     else:
         origin = None
-    wk = rng.choice(["sub-cell", "cell", "few", "domain", "beyond", "none"])
+    wk = rng.choice(["sub-cell", "cell", "few", "domain", "beyond", "none"] + (["none", "none"] if ok == "corner" else []))
     if wk == "sub-cell":
         dx = smin * rng.uniform(0.02, 0.9)
     elif wk == "cell":
